@@ -396,6 +396,11 @@ class Path:
         self.feas_checks += 1
         self.solver.push()
         self.solver.add(extra)
+        if self.qs:
+            # ground instances of the schemas relevant to this query (keeps infeasible paths out)
+            from .ground import instantiate
+            for inst in instantiate(list(self.pc) + [extra], self.qs, rounds=2, cap=400):
+                self.solver.add(inst)
         r = self.solver.check()
         self.solver.pop()
         return r != z3.unsat   # unknown counts as feasible (sound: more paths, never fewer)
